@@ -52,6 +52,8 @@ EMITS = ["class", "function", "argparse", "pydantic", "json_schema", "sqlalchemy
 FILTERS = ["none", "blacklist_alpha", "whitelist_alpha", "blacklist_sub"]
 # the exposed module is the sub-package c20pkg.sub itself, and the lists name it: in neither / one / both lists
 EXPOSED_FILTERS = ["exposed_none", "exposed_blacklisted", "exposed_whitelisted", "exposed_other_whitelisted", "exposed_in_both", "exposed_in_both_and_more", "exposed_whitelisted_other_blacklisted"]
+# the exposed module is two levels down (c20pkg.sub.deep): its root package name contains a dot itself
+DEEP_EXPOSED_FILTERS = ["deep_exposed_none", "deep_exposed_blacklisted", "deep_exposed_whitelisted", "deep_exposed_other_whitelisted", "deep_exposed_parent_blacklisted"]
 PKG = "c20pkg"
 
 
@@ -125,6 +127,8 @@ def cases(tier, seed):
         if depth == 3 and (tier != "quick" or emit == "class"):
             # the same with the output directory named like the target module (the layout the repository's own tests use)
             yield dict(depth=depth, partial_all=False, emit=emit, recursive=recursive, filter=flt, dry_run=dry, out_exists=False, sqlalchemy_submodule=False, out_is_target=True)
+    for emit, recursive, flt, dry in itertools.product(EMITS if tier != "quick" else ("class", "function", "sqlalchemy"), (False, True), DEEP_EXPOSED_FILTERS, (False, True)):
+        yield dict(depth=3, partial_all=False, emit=emit, recursive=recursive, filter=flt, dry_run=dry, out_exists=False, sqlalchemy_submodule=False)
     for depth, emit, recursive, flt, dry in itertools.product((2, 3), ("class", "sqlalchemy") if tier == "quick" else EMITS, (False, True), ("none", "blacklist_alpha", "blacklist_sub"), (False, True)):
         if not (flt == "blacklist_sub" and depth < 2):
             yield dict(depth=depth, partial_all=False, emit=emit, recursive=recursive, filter=flt, dry_run=dry, out_exists=False, sqlalchemy_submodule=False, out_is_target=True)
@@ -204,6 +208,11 @@ def _run(case):
             argv += {"exposed_none": [], "exposed_blacklisted": ["--blacklist", sub], "exposed_whitelisted": ["--whitelist", sub], "exposed_other_whitelisted": ["--whitelist", PKG + ".other"],
                      "exposed_in_both": ["--blacklist", sub, "--whitelist", sub], "exposed_in_both_and_more": ["--blacklist", sub, "--blacklist", PKG + ".zzz", "--whitelist", PKG + ".other", "--whitelist", sub],
                      "exposed_whitelisted_other_blacklisted": ["--blacklist", PKG + ".zzz", "--whitelist", sub]}[case["filter"]]
+        deep = PKG + ".sub.deep"
+        if case["filter"] in DEEP_EXPOSED_FILTERS:
+            argv[2] = deep  # -m c20pkg.sub.deep
+            argv += {"deep_exposed_none": [], "deep_exposed_blacklisted": ["--blacklist", deep], "deep_exposed_whitelisted": ["--whitelist", deep], "deep_exposed_other_whitelisted": ["--whitelist", PKG + ".sub.other"],
+                     "deep_exposed_parent_blacklisted": ["--blacklist", sub]}[case["filter"]]
         from contextlib import redirect_stderr, redirect_stdout
 
         if case["out_exists"] == "populated":
@@ -293,7 +302,9 @@ def _run(case):
                 own = sorted(g for g in gen_names if g.endswith(".py") and not g.startswith("deep" + os.sep))
                 if case["filter"] in ("exposed_blacklisted", "exposed_in_both", "exposed_in_both_and_more", "exposed_other_whitelisted") and own:
                     v("filtered_module_emitted", "no output: the exposed module %s.sub is blacklisted (or not in the whitelist)" % PKG, own[:6])
-                if case["filter"] in ("none", "exposed_none", "exposed_whitelisted", "exposed_whitelisted_other_blacklisted") and not gen_py:
+                if case["filter"] in ("deep_exposed_blacklisted", "deep_exposed_other_whitelisted") and [g for g in gen_names if g.endswith(".py")]:
+                    v("filtered_module_emitted", "no output: the exposed module %s.sub.deep is blacklisted (or not in the whitelist)" % PKG, sorted(g for g in gen_names if g.endswith(".py"))[:6])
+                if case["filter"] in ("none", "exposed_none", "exposed_whitelisted", "exposed_whitelisted_other_blacklisted", "deep_exposed_none", "deep_exposed_whitelisted") and not gen_py:
                     v("nothing_generated", "generated modules under the output directory", "none")
         return dict(outcome=("raises" if raised is not None else "ok") + ("+diff" if viol else ""), violations=viol, n_created=len(created))
     finally:
@@ -316,7 +327,7 @@ def worker_init(tier, seed):
 def describe(tier):
     return dict(
         rule="package trees of depth 1..3 (modules with a class and a function, re-exported through __init__/__all__, complete or partial __all__) placed on sys.path x "
-        "8 emit kinds x --emit-sqlalchemy-submodule (SQLAlchemy kinds) x recursive x {no filter, blacklist alpha, whitelist alpha, blacklist sub-package, and, exposing the sub-package, that module named in neither / one / both lists} x dry-run x "
+        "8 emit kinds x --emit-sqlalchemy-submodule (SQLAlchemy kinds) x recursive x {no filter, blacklist alpha, whitelist alpha, blacklist sub-package, and, exposing the sub-package, that module named in neither / one / both lists; exposing the sub-sub-package c20pkg.sub.deep, that module (or its parent) named in a list or not} x dry-run x "
         "output directory pre-existing or not; every run in a forked child, cwd inside the scratch root, a decoy sibling directory next to it; a case = one exmod invocation",
         bounds=dict(depths=[1, 2, 3], emits=EMITS, filters=FILTERS),
         exhaustive=True,
